@@ -287,7 +287,13 @@ def alternatives(s, op, plus=True):
         addr = args[0]
         n.a[0x10][: len(addr)] = addr
         if r[1] & 1:
-            n.a[0x0A][: len(addr)] = addr
+            # "RX pipe 0 is appropriated with the TX address": the whole resulting address
+            n.a[0x0A][:] = n.a[0x10]
+            if not r[0] & 1 and not r[2] & 1:
+                # opening pipe 0 for the ACKs at this point is C08's business: both admitted
+                m2 = n.copy()
+                m2.r[2] |= 1
+                return [(None, m2), (None, n)]
         return same
     if name == "exit":
         r[0] &= ~2
